@@ -552,4 +552,44 @@ PROPS["C19"] = {
     "assumptions": ["the decoded index entries are what the package stores"],
 }
 
+def nt_c05(lhs, impl):
+    f = lhs.split(" ")
+    if f[0] != "present":
+        return (f[0], len(f[1]) // 64, impl)
+    data = _hexbytes(f[3])
+    ref = f[7:10]
+    pres = f[1]
+    if pres == "b64":
+        pres += ("u" if (b"-" in data or b"_" in data) else "s") + ("p" if b"=" in data else "r") + ("w" if b"\n" in data else "") + ("c" if b"\r" in data else "")
+    elif pres == "pem":
+        pres += ("c" if b"\r" in data else "") + ("P" if not data.startswith(b"-----") else "") + ("T" if not data.rstrip().endswith(b"-----") else "")
+    return (pres, _hexbytes(f[2]).decode("latin1"), ref[1][:24], impl[:2])
+
+PROPS["C05"] = {
+    "modules": ["WhatIs.Props.C05"],
+    "theorems": ["WhatIs.C05.trial_selects", "WhatIs.C05.label_matches", "WhatIs.C05.pem_eq_der", "WhatIs.C05.b64_eq_der",
+                 "WhatIs.C05.polyglot_lengths", "WhatIs.C05.polyglot_witness"],
+    "facts": {},
+    "nontrivial": nt_c05,
+    "gen_timeout": 3000,
+    "rule": "every ASN.1 object of the fixtures (DER files and PEM bodies), freshly generated certificates / SPKI / PKCS#8 for five key "
+            "types and tiny PKCS#1 public keys around the 52-byte polyglot length, each presented as raw DER under five file names "
+            "(incl. near-misses of the reserved SSH names), in the four base64 conventions x wrap widths {0,64,76,1} x LF/CRLF, as PEM "
+            "with the matching label x LF/CRLF x {bare, preamble, trailer, both} and with a lower-case label, and on standard input vs "
+            "file through the real binary; each description is compared with that of the raw DER. distinct non-trivial = distinct "
+            "(presentation variant, file name, object type, outcome)",
+    "design_ref": "DESIGN.md §5 C05",
+    "level_text": "Proof: for ANY behaviour of the typed parsers, a type whose parser accepts while no earlier trial does is described "
+                  "identically through the DER trial order and through its PEM label (label switch proved to hit the same parser, any "
+                  "letter case); for ALL byte strings and all four conventions/any wrap width/LF or CRLF the base64 route equals the DER "
+                  "route (C14 round trip); the one collision (text that is itself a DER element) is characterised arithmetically: exactly "
+                  "total length 52, unpadded, unwrapped (recorded finding D16). That no earlier trial accepts a well-formed object of a "
+                  "later type depends on encoding/asn1 and is explored differentially, not proved.",
+    "level_note": "Trusted: Lean kernel; C14 theorems; typed parsers (crypto/x509, encoding/asn1) as oracle; H-pem for the surrounding-text "
+                  "variants (explored).",
+    "technique": "Lean 4 proof (oracle-parameterised trial order / label switch; reuse of the C14 round-trip theorem; omega characterisation of the polyglot) + differential correspondence across presentations",
+    "trusted_base": ["crypto/x509, encoding/asn1, encoding/pem (oracles)"],
+    "assumptions": ["shape exclusion between the seven ASN.1 types is a property of encoding/asn1 (explored on every generated object)"],
+}
+
 NOT_CLAIMED = {}
